@@ -715,7 +715,7 @@ func init() {
 	engine.Register(engine.Spec[Case]{
 		ID:    "C13",
 		Level: "exploration",
-		Rule: "every probe statement of the stated alphabet (set T op= E for all 15 operators x pool targets x typed expressions of depth<=1 (quick) / <=2 (thorough); bare conditions, log, fresh-local assignment; copy-then-modify two-step histories; nested calls) in scopes recv/miss/fetch/error/deliver, each run on the real interpreter between snapshots of the whole pool; non-trivial = the statement executed without runtime error (others are skipped, not counted); distinct = distinct (scope, statements) Round 3: the pool has a never-assigned STRING local (set / not-set observed for every STRING local) and obj.response in the error scope; a family of REGEX locals and REGEX parameters observed through matches.",
+		Rule: "every probe statement of the stated alphabet (set T op= E for all 15 operators x pool targets x typed expressions of depth<=1 (quick) / <=2 (thorough); bare conditions, log, fresh-local assignment; copy-then-modify two-step histories; nested calls) in scopes recv/miss/fetch/error/deliver, each run on the real interpreter between snapshots of the whole pool; non-trivial = the statement executed without runtime error (others are skipped, not counted); distinct = distinct (scope, statements) Round 3: the pool has a never-assigned STRING local (set / not-set observed for every STRING local) and obj.response in the error scope; a family of REGEX locals and REGEX parameters observed through matches. Round 4: var.i2 = -130 (a shift / rotate count that has to be reduced).",
 		Gen:  gen,
 		Key:  func(c Case) string { return c.Scope + "\x00" + strings.Join(c.Stmts, "\x00") + fmt.Sprint(c.NoPrime) },
 		Run:  run,
